@@ -420,7 +420,7 @@ Lemma fok_pat_eq C objcls oc p a t l :
   fok_pat C objcls oc p a (Pat t l) =
   let d := dflt (f_type C oc a) in
   let pv := nested_var C oc p a t (negb (is_anil l)) in
-  is_some (f_type C oc a) && objcls d && comparable C t d
+  is_some (f_type C oc a) && objcls d
   && (if f_iter C oc a then type_filter C oc a t || head_ok (tr_alist C d pv l) else true)
   && fok_alist C objcls d pv l.
 Proof. reflexivity. Qed.
@@ -772,14 +772,12 @@ Section Main.
     ((exists e', In e' (eval_all cs e)) <-> b = true) -> concl q cs e b.
   Proof. intros H1 H2. split; auto. rewrite nonempty_ex. exact H2. Qed.
 
-  Lemma nofilter_type_ok oc a t d o' : type_filter C oc a t = false -> comparable C t d = true ->
+  Lemma nofilter_type_ok oc a t d o' : type_filter C oc a t = false ->
     f_type C oc a = Some d -> inst o' d -> type_ok (sub C) M t o' = true.
   Proof.
-    intros Htf Hc Hd Hi. destruct t as [T|]; simpl; auto.
-    unfold type_filter, type_filter_needed in Htf. rewrite Hd in Htf. simpl in Htf, Hc.
-    destruct (Nat.eqb T d) eqn:He.
-    - apply Nat.eqb_eq in He. subst. exact Hi.
-    - simpl in Htf. rewrite Htf in Hc. simpl in Hc. eapply Htrans; eauto.
+    intros Htf Hd Hi. destruct t as [T|]; simpl; auto.
+    unfold type_filter, type_filter_needed in Htf. rewrite Hd in Htf. simpl in Htf.
+    apply negb_false_iff in Htf. eapply Htrans; eauto.
   Qed.
   Lemma filter_has_type oc a t d : type_filter C oc a t = true -> f_type C oc a = Some d -> exists T, t = Some T.
   Proof.
@@ -801,7 +799,7 @@ Section Main.
     change (fok_apat C objcls oc p a (PMatch (Pat t l'))) with (fok_pat C objcls oc p a (Pat t l')) in Hok.
     rewrite fok_pat_eq in Hok. cbv zeta in Hok.
     apply andb_true_iff in Hok. destruct Hok as [Hok Hal]. apply andb_true_iff in Hok. destruct Hok as [Hok Hhead].
-    apply andb_true_iff in Hok. destruct Hok as [Hok Hcmp]. apply andb_true_iff in Hok. destruct Hok as [Hty Hobj].
+    apply andb_true_iff in Hok. destruct Hok as [Hty Hobj].
     destruct (f_type C oc a) as [d|] eqn:Hd; [|discriminate]. cbn [dflt] in *.
     rewrite tr_apat_match, tr_pat_eq, Hd. cbn [dflt].
     pose proof (Htyped o oc a d Hi Hd) as Ht.
@@ -892,7 +890,7 @@ Section Main.
         destruct (Hnest ox Hox) as [[Hc1 _] Hc2]. destruct (Hc1 e' Hin) as [? _]. destruct (Hc2 e' Hin). auto.
       + rewrite Hav. rewrite matches_attr_coll, existsb_exists. split.
         * intros [e' Hin]. apply Hmem in Hin. destruct Hin as [ox [Hox Hin]]. exists ox. split; auto.
-          rewrite matches_eq. rewrite (nofilter_type_ok oc a t d ox Htf Hcmp Hd) by (apply Hxs; auto). simpl.
+          rewrite matches_eq. rewrite (nofilter_type_ok oc a t d ox Htf Hd) by (apply Hxs; auto). simpl.
           destruct (Hnest ox Hox) as [[_ Hc] _]. apply Hc. apply nonempty_ex. eauto.
         * intros [ox [Hox Hm]]. rewrite matches_eq in Hm. apply andb_true_iff in Hm. destruct Hm as [_ Hm].
           destruct (Hnest ox Hox) as [[_ Hc] _]. apply Hc in Hm. apply nonempty_ex in Hm. destruct Hm as [e' Hin].
@@ -927,7 +925,7 @@ Section Main.
           intros x H1 H2. destruct (path_eq_dec (PAttr p a) x) as [<-|N2]; [lia|].
           rewrite lookup_cons_ne in H2 by auto. congruence. }
       rewrite Hav. rewrite matches_attr_obj, matches_eq.
-      rewrite (nofilter_type_ok oc a t d o' Htf Hcmp Hd Ho'). simpl.
+      rewrite (nofilter_type_ok oc a t d o' Htf Hd Ho'). simpl.
       destruct Hnest as [[Hc1 Hc2] Hc3].
       destruct cs as [|c cs'] eqn:Hcs.
       + split.
